@@ -20,7 +20,7 @@ pub fn check() -> Check {
         replay,
         floor_quick: 20_000,
         floor_thorough: 500_000,
-        rule: "G1: breadth-first closure of a list model of the history for buffers of 0..=14 (quick) / 0..=17 (thorough) bytes over the lines {a, b, e-acute, ab, 'a b', bitcoin sign, abc, empty, a 12-byte line}; every (state, op) edge - push of each line, older, newer - is replayed on a fresh real History: \
+        rule: "G1: breadth-first closure of a list model of the history for buffers of 0..=14 (quick) / 0..=17 (thorough) bytes over the lines {a, b, e-acute, ab, 'a b', bitcoin sign, abc, empty, a 12-byte line, 'a ' (trailing blank)}; every (state, op) edge - push of each line, older, newer - is replayed on a fresh real History: \
                return value, raw buffer content (hook) and navigation position compared. G2: random op sequences for buffers of 0..=40 bytes with lines of 0..=45 bytes (beyond the buffer) and frequent duplicates. \
                G3: Cli sessions (submit / Up / Down / edit then submit, command buffer larger and smaller than the history buffer), each ending with an Up-walk to the oldest entry and a Down-walk back; the recalled line, the raw buffer and the position are compared after every key. \
                G4: large buffers (250..262, 500..3000, 65530..65542, 70000, 131080 bytes) filled beyond capacity, walked to the oldest entry and back, with re-submissions near both ends. \
@@ -210,7 +210,7 @@ fn seq_json(cap: usize, ops: &[HOp]) -> Value {
 // ---- G1 closure
 
 fn closure_lines() -> Vec<String> {
-    ["a", "b", "é", "ab", "a b", "₿", "abc", "", "twelve bytes"].iter().map(|s| s.to_string()).collect()
+    ["a", "b", "é", "ab", "a b", "₿", "abc", "", "twelve bytes", "a "].iter().map(|s| s.to_string()).collect()
 }
 
 fn check_edge(cap: usize, st: &RefHistory, op: &HOp) -> Result<(), (String, String)> {
